@@ -172,7 +172,16 @@ def r17_1(ctx):
                     # these arms delegate (nested table / recursion); their direct inserts are checked by the nested tables
                     if alt == "TsTypeLit":
                         ok = got == {"Function", "Object"}
-                        r.ob(key + " -> Function (call/construct signature) | Object", ok, C.mloc(rt, a), "direct inserts %s" % sorted(got))
+                        # which members make it a Function: call and construct signatures, both
+                        tested = {x.get("variant") for x in walk(a["body"]) if x.get("k") in ("PTupleStruct", "PStruct", "PPath") and (x.get("adt") or (x.get("res") or {}).get("adt") or "") == AST + "TsTypeElement"}
+                        for x in walk(a["body"]):
+                            if x.get("k") == "MethodCall" and x.get("method") in ("is_ts_call_signature_decl", "is_ts_construct_signature_decl"):
+                                tested.add({"is_ts_call_signature_decl": "TsCallSignatureDecl", "is_ts_construct_signature_decl": "TsConstructSignatureDecl"}[x["method"]])
+                        both = {"TsCallSignatureDecl", "TsConstructSignatureDecl"} <= tested
+                        r.ob(key + " -> Function (call/construct signature) | Object", ok and both, C.mloc(rt, a),
+                             "direct inserts %s; member kinds tested %s" % (sorted(got), sorted(v for v in tested if v)) if ok and both else
+                             ("direct inserts %s" % sorted(got) if not ok else "only %s make the type a Function: a type with a %s is inferred as Object" % (
+                                 sorted(v for v in tested if v), sorted({"TsCallSignatureDecl", "TsConstructSignatureDecl"} - tested))))
                     elif alt in ("TsParenthesizedType", "TsOptionalType", "TsUnionType", "TsIntersectionType", "TsIndexedAccessType"):
                         txt_a = expr_str(a["body"])
                         narrowed = [w for w in (".filter(", ".retain(", ".contains(", ".intersection(", ".difference(") if w in txt_a]
